@@ -17,6 +17,19 @@ ALLOWED_AXIOMS = [
     "ClassicalDedekindReals.sig_not_dec",
     "FunctionalExtensionality.functional_extensionality_dep",
 ]
+# second tie (translator): coq/Gen/Core.v is regenerated from the source text of C.REPO on every run and
+# coq/Tie/T09.v proves generated definition = hand model (harness/translate/py2coq_core.py)
+EXTRA_PROPS = ["Tie/T09.v"]
+
+
+def prebuild(ctx):
+    import os
+    import sys
+    sys.path.insert(0, os.path.join(C.VERIF, "harness", "translate"))
+    import py2coq_core
+    py2coq_core.prebuild(ctx, C, ["GeneticAlgorithm.iterate", "EvolutionaryStrategy.iterate", "GDE3.survival"])
+
+
 META = {
     "level_text": "Machine-checked proof (Coq) about literal step models of the survival selection of NSGA-II, eps-NSGA-II, GDE3, NSGA-III and SPEA2 "
                   "(built on the finished models of ParetoDominance.compare, Archive.add, nondominated_sort/truncate/split/prune and EpsilonBoxArchive.add): "
@@ -510,17 +523,13 @@ def observe(cfg, steps):
 
     if arch is not None:
         st[0]["arch_before"] = list(arch._contents)
-    old = signal.signal(signal.SIGALRM, _alarm)
-    signal.setitimer(signal.ITIMER_REAL, 20.0)
     try:
-        alg.run(cond, callback=callback)
+        with C.cpu_time_limit(20.0, exc=Hang, wall_factor=15):
+            alg.run(cond, callback=callback)
     except Hang:
-        obs.error = "run did not finish within 20 s"
+        obs.error = "run did not finish within 20 s of CPU time"
     except Exception:
         obs.error = traceback.format_exc()
-    finally:
-        signal.setitimer(signal.ITIMER_REAL, 0.0)
-        signal.signal(signal.SIGALRM, old)
     return obs
 
 
